@@ -1280,7 +1280,7 @@ def run(rep, tier, seed):
     items.append(("inf", src, spec, 0, None))
     if tag == "full":
       # triples use the 7-type family in every tier (bounded cost)
-      ty = TYPES7 if len(spec) >= 3 else types
+      ty = TYPES7 if len(spec) >= 2 else types   # the 13-type family on depth-1 programs, the 7-type family above
       stubs, ns = gen_stubs(src, ty)
       maxslots = max(maxslots, ns)
       nstub += len(stubs)
